@@ -58,6 +58,13 @@ def install(M):
         "std::vec::Vec::<T, A>::as_mut_slice": M.m_identity,
         "core::array::<impl [T; N]>::as_slice": M.m_identity,
         "std::mem::size_of": X.size_of,
+        "std::iter::Iterator::rev": X.it_rev,
+        "std::iter::Iterator::skip": X.it_skip,
+        "std::iter::Iterator::last": X.it_last,
+        "std::iter::Iterator::sum": X.it_sum,
+        "std::iter::Iterator::nth": X.it_nth,
+        "std::iter::Iterator::cloned": lambda e, st, a: M.adapt("copied", e, st, a),
+        "std::iter::DoubleEndedIterator::next_back": X.it_next_back,
     })
     if "core::slice::<impl [T]>::last" in t:
         base_last = t["core::slice::<impl [T]>::last"]
@@ -493,6 +500,87 @@ class Ext:
             if t["k"] == "int":
                 return [(st, "val", IntV(INT_BITS[t["s"]] // 8, "usize"))]
         return None
+
+    # ------------------------------------------------------------ iterators
+    def _iter(self, st, v):
+        if isinstance(v, RefV):
+            v = self.I.read_loc(st, v.key, v.path)
+        return v if isinstance(v, IterV) else None
+
+    def _double_ended(self, seq):
+        while seq[0] in ("copied", "enumerate", "map", "rev"):
+            seq = seq[1]
+        return seq[0] in ("coll", "bytes", "items", "chunks")
+
+    def it_rev(self, e, st, a):
+        it = self._iter(st, a[0])
+        if it is None or not self._double_ended(it.seq) or self.I.loops.count_of(st, it.seq) is None:
+            return None
+        return [(st, "val", IterV(("rev", it.seq, it.pos)))]
+
+    def it_skip(self, e, st, a):
+        it = self._iter(st, a[0])
+        if it is None or not isinstance(a[1], IntV):
+            return None
+        n = self.I.loops.count_of(st, it.seq)
+        if n is None:
+            return None
+        # skipping past the end leaves an exhausted iterator: position min(pos + k, n)
+        out = [(s, "val", IterV(it.seq, it.pos + a[1].l)) for s in self.I.assume(st, flit(le(it.pos + a[1].l, n)))]
+        out += [(s, "val", IterV(it.seq, n)) for s in self.I.assume(st, flit(gt(it.pos + a[1].l, n)))]
+        return out
+
+    def _at(self, e, st, it, idx):
+        """Option of the element at absolute index idx of the iterator's sequence"""
+        n = self.I.loops.count_of(st, it.seq)
+        if n is None:
+            return None
+        out = []
+        for s in self.I.assume(st, f_and(flit(ge(idx, it.pos)), flit(lt(idx, n)))):
+            for s2, v in self.I.loops.elem_of(s, it.seq, idx, e):
+                out.append((s2, "val", some(v)))
+        out += [(s, "val", NONE) for s in self.I.assume(st, f_or(flit(lt(idx, it.pos)), flit(ge(idx, n))))]
+        return out
+
+    def it_last(self, e, st, a):
+        it = self._iter(st, a[0])
+        if it is None:
+            return None
+        n = self.I.loops.count_of(st, it.seq)
+        if n is None:
+            return None
+        return self._at(e, st, it, n - 1)
+
+    def it_nth(self, e, st, a):
+        it = self._iter(st, a[0])
+        if it is None or not isinstance(a[1], IntV) or isinstance(a[0], RefV) is False and False:
+            return None
+        out = self._at(e, st, it, it.pos + a[1].l)
+        if out is not None and isinstance(a[0], RefV):
+            n = self.I.loops.count_of(st, it.seq)
+            for s, k, v in out:
+                adv = it.pos + a[1].l + 1 if (isinstance(v, StructV) and v.variant == "Some") else n
+                self.I.write_loc(s, a[0].key, a[0].path, IterV(it.seq, adv))
+        return out
+
+    def it_sum(self, e, st, a):
+        it = self._iter(st, a[0])
+        ty = self.I.int_ty(e)
+        if it is None or ty is None:
+            return None
+
+        def add(s, args, e2):
+            acc, x = args
+            if isinstance(x, RefV):
+                x = self.I.read_loc(s, x.key, x.path)
+            if not (isinstance(acc, IntV) and isinstance(x, IntV)):
+                return [(s, "val", Opaque("sum of non-integers"))]
+            return [(s2, "val", v) for s2, v in self.I.binop(s, "Add", acc, IntV(x.l, acc.ty), e, acc.ty)]
+
+        return self.I.loops.fold(e, st, it, IntV(0, ty), PyFn(add, "sum"))
+
+    def it_next_back(self, e, st, a):
+        return None      # would need an end position in IterV: stays unmodelled (fails closed)
 
     # ------------------------------------------------------------ slices
     def _slice(self, st, v):
